@@ -103,6 +103,23 @@ CHECKS = {
         "templates are never rejected is asserted on every valid template "
         "generated by C01, C03 and C04.",
         "DESIGN.md 3/C11"),
+    "C12": (
+        "fault_enumeration",
+        "fault planting at known source coordinates + reference interpreter "
+        "for reachability + message record parsing",
+        "Failures (22 classes incl. custom constructors/__str__, the OSError "
+        "family, RecursionError and non-Exception classes) are planted at "
+        "generated expression sites; the reference interpreter decides which "
+        "one is reached first. render() must raise an instance of the "
+        "planted class with equal args that is also a RenderError (never for "
+        "RecursionError; never an Exception for KeyboardInterrupt/SystemExit/"
+        "GeneratorExit), and the message's records must be exactly the "
+        "failing expression (text, file, line, column) followed by every "
+        "use-macro call site, innermost first - also through load: chains "
+        "over up to 4 files, same-template macros and slot fillers.",
+        "Serializer offsets / scaffold string indices are the ground truth; "
+        "entity/';;'-related excerpt shifts are attributed to K12.",
+        "DESIGN.md 3/C12"),
     "C13": (
         "fault_enumeration",
         "Hypothesis template generation with planted faults + reference "
